@@ -104,7 +104,7 @@ func TestC06(t *testing.T) {
 func testC06Histories(t *testing.T) {
 	col := collector("C06", ruleC06)
 	backends := []string{run.Bbolt, run.Bbolt, run.BadgerMem}
-	check(t, "C06", cases(2500, 60000), ev.Scale(20, 30), func(rt *rapid.T) {
+	check(t, "C06", cases(2500, 120000), ev.Scale(20, 30), func(rt *rapid.T) {
 		backend := rapid.SampledFrom(backends).Draw(rt, "backend")
 		p := c06Profile()
 		s, err := c06Session(backend)
